@@ -56,6 +56,7 @@ pub fn uchar() -> BoxedStrategy<char> {
 
 pub fn ustring(max: usize) -> BoxedStrategy<String> {
     prop_oneof![
+        1 => prop::sample::select(vec!["a  b", " x ", "  ", "Main  Street", "a\u{a0}\u{a0}b", "tab\t\tx", "nl\n\nx", "a \u{2003} b", "  lead", "trail  ", "x\r\ny"]).prop_map(String::from),
         8 => vec(uchar(), 0..=max.min(12)).prop_map(|v| v.into_iter().collect::<String>()),
         2 => vec(uchar(), 0..=max).prop_map(|v| v.into_iter().collect::<String>()),
         1 => Just(String::new()),
@@ -79,7 +80,11 @@ pub fn uri_char() -> BoxedStrategy<char> {
 }
 
 pub fn uri_string(max: usize) -> BoxedStrategy<String> {
-    vec(uri_char(), 0..=max).prop_map(|v| v.into_iter().collect::<String>()).boxed()
+    prop_oneof![
+        1 => prop::sample::select(vec!["a  b", "http://x/a  b", " ", "  ", "x\u{a0}\u{a0}y"]).prop_map(String::from),
+        12 => vec(uri_char(), 0..=max).prop_map(|v| v.into_iter().collect::<String>()),
+    ]
+    .boxed()
 }
 
 pub fn tag_name() -> BoxedStrategy<String> {
